@@ -76,7 +76,8 @@ def build_extent(e, layer, idx, parent_cid=None, embed_descriptor=None):
                 pos[s] = data_off + s * gsz
                 out.append((pos[s] * S, grain_bytes(layer, idx, s, gsz * S)))
             end = data_off + ((max(slots) + 1) if slots else 0) * gsz
-        gd = b"".join(struct.pack("<I", o) for o in gt_off)
+        holes = set(e.get("gd_holes", ()))  # grain tables that are not allocated at all: directory entry 0 (every grain of them is unallocated)
+        gd = b"".join(struct.pack("<I", 0 if i in holes else o) for i, o in enumerate(gt_off))
         out.append((gd_off * S, gd))
         for i in range(ngd):
             gt = b""
@@ -375,6 +376,20 @@ def gen_specs(rng: random.Random, n, hints=None):
             pos += caps[j] + rng.randint(0, 2)
         out.append({"mode": "descriptor", "interleave": True,
                     "extents": [{"kind": "flat", "capacity": caps[j], "dtype": "FLAT", "start": starts[j], "name": "disk-shared-flat.vmdk", "shared": True} for j in range(ne)]})
+    # always: a hosted sparse extent with more than 128 grain tables, allocated tables and unallocated ones (directory entry 0) exactly 128
+    # and 256 apart, two grains per table: whatever is remembered about one table must not be used for another
+    ngte, ntab = 2, rng.choice([135, 260, 300])
+    ngr = ngte * ntab
+    alloc_tabs = sorted({0, 1, 5, 129, ntab - 1} | {rng.randrange(ntab) for _ in range(4)})
+    holes = [t for t in range(ntab) if t not in alloc_tabs and (t % 128 in (0, 1, 5) or rng.random() < 0.7)]
+    grains = [None] * ngr
+    slot = 0
+    for t in alloc_tabs:
+        for j in range(ngte):
+            if rng.random() < 0.85:
+                grains[t * ngte + j] = slot
+                slot += 1
+    out.append({"mode": "single", "extents": [{"kind": "sparse", "capacity": ngr, "gsz": 1, "ngte": ngte, "grains": grains, "gap": 0, "gd_holes": holes}]})
     if (hints or {}).get("big_footer"):
         # stream-optimized extent whose grain directory (located through the footer) has more than 128 entries
         ngr = 140
